@@ -135,6 +135,10 @@ func pqImpl(line string) string {
 				return "bad-op", true
 			}
 			return "ok", false
+		case f[0] == "z" && len(f) == 2:
+			// the packet size in force changes (the queue asks its callback)
+			psize = atoi(f[1])
+			return "ok", false
 		case f[0] == "p":
 			a, b := q.Position()
 			return fmt.Sprintf("%d,%d", a, b), false
@@ -394,6 +398,11 @@ func genReader(rng *rand.Rand, nops int) string {
 				avail, pos, mark, markValid = 0, 0, 0, false
 			}
 			undefined = false
+			continue
+		}
+		if rng.Intn(12) == 0 {
+			// the negotiated packet size changes while data is queued (smaller and larger than the packets held)
+			ops = append(ops, fmt.Sprintf("z:%d", []int{9, 10, 11, 12, 16, 24, 512, 2048}[rng.Intn(8)]))
 			continue
 		}
 		switch x := rng.Intn(20); {
